@@ -255,21 +255,19 @@ def firstExtremum (lt : Rat → Rat → Bool) (a : Spec.Fn Rat) (r c i j : Nat) 
 def lapFuel (n : Nat) : Nat := n * n + n + 1
 
 /-- what the harness prints for `lap` -/
-def showLap (n : Nat) (a : Lap.Full Float) : String :=
-  let ix := List.range n
-  "cost " ++ showF a.cost ++ " ; rowsol " ++ " ".intercalate (ix.map fun i => toString (a.rowSol i))
-    ++ " ; colsol " ++ " ".intercalate (ix.map fun j => toString (a.colSol j))
-    ++ " ; u " ++ " ".intercalate (ix.map fun i => showF (a.u i))
-    ++ " ; v " ++ " ".intercalate (ix.map fun j => showF (a.v j))
+def showLap (a : Lap.LapOut Float) : String :=
+  "cost " ++ showF a.cost ++ " ; rowsol " ++ " ".intercalate (a.rowSol.toList.map toString)
+    ++ " ; colsol " ++ " ".intercalate (a.colSol.toList.map toString)
+    ++ " ; u " ++ " ".intercalate (a.u.toList.map showF)
+    ++ " ; v " ++ " ".intercalate (a.v.toList.map showF)
 
 /-- the exact-arithmetic (`Rat`) instantiation of the transcription gives the same answer as its
 `Float` instantiation (integer costs: every double operation of the routine is exact) -/
-def lapRatAgrees (n : Nat) (c : Nat → Nat → Rat) (a : Lap.Full Float) : Bool :=
-  match Lap.lapFull (α := Rat) (lapFuel n) n c (fun _ => -7) (fun _ => -7) (fun _ => 99) (fun _ => 99) with
-  | .ok b => (Lap.allLt n fun i =>
-      decide (a.rowSol i = b.rowSol i) && decide (a.colSol i = b.colSol i) && decide (toRat (a.u i) = b.u i)
-        && decide (toRat (a.v i) = b.v i) && finite (a.u i) && finite (a.v i))
-      && decide (toRat a.cost = b.cost) && finite a.cost
+def lapRatAgrees (k : Kind) (M : PM) (lr lc lu lv : Nat) (a : Lap.LapOut Float) : Bool :=
+  let A : Store Rat := Store.ofFn k M.r M.c M.q
+  match Lap.lap (lapFuel A.nrows) A (Array.replicate lr (-7)) (Array.replicate lc (-7)) (Array.replicate lu 99) (Array.replicate lv 99) with
+  | .ok b => a.rowSol == b.rowSol && a.colSol == b.colSol && a.u.all finite && a.v.all finite && finite a.cost
+      && a.u.map toRat == b.u && a.v.map toRat == b.v && toRat a.cost == b.cost
   | .error _ => false
 
 /-- verdict on the implementation's answer to `lap`:
@@ -520,20 +518,23 @@ def stepUnary (st : St) (w : String) (rest : List String) (impl : Option (List S
       judge ⟨"sumElements", true, [mkOut .lin 1 1 (fun _ _ => Spec.total M.q d.1 d.2) (fun _ _ => Spec.total M.m d.1 d.2)], d.1 * d.2 + 1, M.fin, M.int, true⟩
         (if isCrash t then t else "1" :: "1" :: t)
     pure (out, v)
-  | "lap" => do
-    let M ← runP (do let M ← pMat; pEnd; pure M) rest
+  | "lap" | "lapv" => do
     -- the whole routine is transcribed (`LapFull.lean`): the answer of its `Float` instantiation is
-    -- compared bit-for-bit; the verdict evaluates the certificate on the implementation's answer
-    let d := dimsOf st.kA M
+    -- compared bit-for-bit; the verdict evaluates the certificate on the implementation's answer.
+    -- `lapv lr lc lu lv M`: the caller's output vectors have the lengths lr, lc, lu, lv (`lap M`: dim)
+    let (lens, M) ← runP (do
+      let lens ← if w == "lapv" then (do let a ← pNat; let b ← pNat; let c ← pNat; let d ← pNat; pure (some (a, b, c, d))) else pure none
+      let M ← pMat; pEnd; pure (lens, M)) rest
+    let A := toStore st.kA M
+    let (lr, lc, lu, lv) := lens.getD (A.nrows, A.nrows, A.nrows, A.nrows)
     let out :=
-      if d.1 != d.2 then "exc:bpp" else
-      match Lap.lapFull (lapFuel d.1) d.1 (fun i j => M.at i j) (fun _ => -7) (fun _ => -7) (fun _ => 99.0) (fun _ => 99.0) with
+      match Lap.lap (lapFuel A.nrows) A (Array.replicate lr (-7)) (Array.replicate lc (-7)) (Array.replicate lu 99.0) (Array.replicate lv 99.0) with
       | .ok a =>
         -- integer costs below 2^40: the exact (`Rat`) instantiation must give the same answer
         let cmax := M.a.foldl (fun m x => max m (rabs (toRat x))) 0
-        if M.fin && M.int && decide (cmax < (2 ^ 40 : Nat)) && !lapRatAgrees d.1 M.q a then
-          showLap d.1 a ++ " ; the-Rat-instantiation-differs"
-        else showLap d.1 a
+        if M.fin && M.int && decide (cmax < (2 ^ 40 : Nat)) && !lapRatAgrees st.kA M lr lc lu lv a then
+          showLap a ++ " ; the-Rat-instantiation-differs"
+        else showLap a
       | .error e => showErr e
     pure (out, vOfImpl impl (lapVerdict st.kA M))
   | _ => none
